@@ -115,6 +115,22 @@ class Impl:
             return [-99]
         return [8, len(n._list)] + [self.enc_item(x) for x in n._list] + self.enc_pairs(list(n._dict.items()), n._list)
 
+    def arg_seq(self, l, a):
+        """the argument of extend / +=: a list, or (third component of the operation) a tuple,
+        a generator, or an UNTYPED KeyedList sharing the receiver's key function object"""
+        seq = [self.item(x) for x in a[0]]
+        kind = a[1] if len(a) > 1 else "list"
+        if kind == "tuple":
+            return tuple(seq)
+        if kind == "gen":
+            return (x for x in seq)
+        if kind == "kl":
+            try:
+                return self.KeyedList(seq, key=l._key)
+            except BaseException:      # e.g. duplicate keys inside the argument: hand over the list
+                return seq
+        return seq
+
     def apply(self, l, op):
         name, a = op[0], op[1:]
         it, ka = self.item, self.keyarg
@@ -143,12 +159,12 @@ class Impl:
         if name == "Append":
             l.append(it(a[0])); return [0]
         if name == "Extend":
-            l.extend([it(x) for x in a[0]]); return [0]
+            l.extend(self.arg_seq(l, a)); return [0]
         if name == "ExtendSelf":
             l.extend(l); return [0]
         if name == "IAdd":
             l0 = l
-            l += [it(x) for x in a[0]]
+            l += self.arg_seq(l, a)
             return [0] if l is l0 else [-99]
         if name == "Pop":
             v = l.pop() if a[0] is None else l.pop(a[0]); return [1, self.enc_item(v)]
@@ -265,6 +281,9 @@ def op_instances(u, n, keys, pays, typed):
     pairs = [[a, b] for a in items for b in items]
     ops += [("Extend", xs) for xs in [[]] + [[x] for x in items] + pairs[:: max(1, len(pairs) // 8)]]
     ops += [("IAdd", [items[0], items[-1]]), ("IAdd", [items[-1]] + bad[:1]), ("ExtendSelf",)]
+    for kind in ("kl", "tuple", "gen"):
+        ops += [("Extend", [items[-1]] + bad[:1], kind), ("Extend", [items[0], items[-1]], kind),
+                ("IAdd", bad[:1] + [items[0]], kind), ("IAdd", [items[-1]], kind)]
     ops += [("Add", [items[0]]), ("Add", [items[-1], items[-2]]), ("RAdd", [items[-1]]), ("Add", bad[:1] or [items[1]])]
     ops += [("Reverse",), ("Clear",), ("Iter",), ("Reversed",), ("Len",), ("Keys",), ("Items",),
             ("SetSlice",), ("DelSlice",)]
@@ -290,6 +309,9 @@ def random_case(rng, u, typed, maxops):
     ops, n = [], n0
     for _ in range(rng.randint(1, maxops)):
         pool = op_instances(u, min(n, 6), rng.sample(keys, 3), rng.sample(pays, 2), typed)
+        if rng.random() < 0.6:      # the kind of operation first, then one of its instances
+            name = rng.choice(sorted({o[0] for o in pool}))
+            pool = [o for o in pool if o[0] == name]
         ops.append(rng.choice(pool))
         n = min(6, n + 1)
     return init, ops
@@ -319,6 +341,23 @@ def generate(rng, tier):
             step = 97 if quick else 7
             for a, b in pairs[rng.randrange(step)::step]:
                 cases.append((u, typed, init, [a, b], "exh2"))
+    # stale-view patterns: an access by key, a mutation, another access by key / full read
+    # (a lazily built or incrementally maintained view that one mutation forgets to refresh)
+    READ = ("IndexForKey", "GetKey", "Get", "ContainsKey", "SetKey", "DelKey", "Keys", "Items", "GetIdx", "Index")
+    MUT = ("Reverse", "SetIdx", "DelIdx", "Insert", "Append", "Pop", "Remove", "Extend", "IAdd", "Clear",
+           "SetKey", "DelKey", "ExtendSelf")
+    n_tri = 1500 if quick else 20000
+    for i in range(n_tri):
+        u = UNIVERSES[i % 4]
+        typed = (i // 4) % 2 == 1
+        keys, pays = [0, 1, 2], [0, 1]
+        init = rng.choice(states(keys, pays, 3)[4:] or states(keys, pays, 3))
+        insts = op_instances(u, len(init), keys, pays, typed)
+        by = {}
+        for o in insts:
+            by.setdefault(o[0], []).append(o)
+        pick = lambda names: rng.choice(by[rng.choice([n for n in names if n in by])])
+        cases.append((u, typed, init, [pick(READ), pick(MUT), pick(READ), ("Items",)], "stale"))
     # random longer sequences
     n_rand = 600 if quick else 12000
     for i in range(n_rand):
@@ -449,7 +488,7 @@ def fix_op(o):
     name = o[0]
     args = []
     for y in o[1:]:
-        if name in ("Extend", "IAdd", "Add", "RAdd", "EqList"):
+        if name in ("Extend", "IAdd", "Add", "RAdd", "EqList") and not isinstance(y, str):
             args.append([tuple(z) for z in y])
         else:
             args.append(fx(y))
